@@ -373,7 +373,39 @@ func (c *c14) stateAnswerFor(ev gmsl.PDU, orig string, faulty bool) *stateAnswer
 	if !faulty {
 		return a
 	}
-	switch t.Weighted([]int{8, 2, 1, 1, 2}) {
+	switch t.Weighted([]int{8, 2, 1, 1, 2, 2}) {
+	case 5: // a state event the auth rules do not read for this event is of another room
+		if c.other == nil {
+			break
+		}
+		needed := map[string]bool{}
+		for _, tp := range gmsl.StateNeededForAuth([]gmsl.PDU{ev}).Tuples() {
+			needed[tp.EventType+"\x00"+tp.StateKey] = true
+		}
+		var cands []string
+		for _, id := range a.ids {
+			if e := a.state[id]; e != nil && e.StateKey() != nil && !needed[e.Type()+"\x00"+*e.StateKey()] {
+				cands = append(cands, id)
+			}
+		}
+		var foreign gmsl.PDU
+		for _, id := range c.other.order {
+			if e := c.other.nodes[id].ev; e.StateKey() != nil && e.Type() != spec.MRoomCreate {
+				foreign = e
+			}
+		}
+		if len(cands) > 0 && foreign != nil {
+			victim := sim.Pick(t, cands)
+			delete(a.state, victim)
+			a.state[foreign.EventID()] = foreign
+			for i, id := range a.ids {
+				if id == victim {
+					a.ids[i] = foreign.EventID()
+				}
+			}
+			a.comment = "state_holds_event_of_another_room_at_unread_key"
+			c.r.Fault("state_foreign_event_unread_key")
+		}
 	case 1: // the ID list lacks one of the event's auth events
 		var in []int
 		cited := map[string]bool{}
